@@ -46,8 +46,11 @@ def make_protocols(conf, validator):
     from spyne.protocol.json import JsonDocument
     from spyne.protocol.yaml import YamlDocument
     from spyne.protocol.msgpack import MessagePackDocument, MessagePackRpc
-    c = {'json': JsonDocument, 'yaml': YamlDocument, 'msgpack': MessagePackDocument, 'msgpackrpc': MessagePackRpc}[conf.fmt]
     kw = dict(ignore_wrappers=conf.ignore_wrappers, complex_as=dict if conf.complex_as == 'dict' else list)
+    if conf.fmt == 'jsonrpc':
+        from spyne.protocol.json import JsonRpc
+        return JsonRpc('spyne', validator=validator, **kw), JsonRpc('spyne', **kw)
+    c = {'json': JsonDocument, 'yaml': YamlDocument, 'msgpack': MessagePackDocument, 'msgpackrpc': MessagePackRpc}[conf.fmt]
     return c(validator=validator, **kw), c(**kw)
 
 
